@@ -67,7 +67,9 @@ FixedVals(w) ==
          <<0, 127>> \o FF(w - 1), <<0>> \o Cnt(w)>>
 X64 == [i \in 1..64 |-> 120]
 SV(t) == <<3>> \o t
-StrVals == <<SV(<<>>), SV(<<97>>), SV(<<98>>), SV(<<195, 169>>), SV(<<226, 130, 172>>), SV(<<240, 159, 152, 128>>), SV(X64)>>
+\* (incl. text that tools like to "clean up": a leading byte order mark U+FEFF, NUL, the last BMP character U+FFFF)
+StrVals == <<SV(<<>>), SV(<<97>>), SV(<<98>>), SV(<<195, 169>>), SV(<<226, 130, 172>>), SV(<<240, 159, 152, 128>>),
+             SV(<<239, 187, 191, 97>>), SV(<<239, 187, 191>>), SV(<<0>>), SV(<<97, 0, 239, 191, 191>>), SV(X64)>>
 DateVals == <<<<12, 1970, 1, 1>>, <<12, 2024, 2, 29>>, <<12, 0, 1, 1>>, <<12, -1, 12, 31>>,
               <<12, 262142, 12, 31>>, <<12, -262143, 1, 1>>, <<12, 9999, 12, 31>>>>
 TimeVals == <<<<13, 0, 0, 0, 0>>, <<13, 23, 59, 59, 999999999>>, <<13, 23, 59, 59, 1999999999>>,
@@ -84,7 +86,9 @@ ZoneSeq == <<SV(<<85, 84, 67>>),
 FoldNdt == <<14, <<12, 2024, 11, 3>>, <<13, 5, 30, 0, 0>>>>
 DecimalSeq == <<SV(<<48>>), SV(<<49>>), SV(<<45, 49>>), SV(<<48, 46, 53>>), SV(<<45, 49, 50, 46, 55, 53>>),
                 SV(<<49, 50, 51, 52, 53, 54, 55, 56, 57, 48, 49, 50, 51, 52, 53, 54, 55, 56, 57, 48, 49, 50, 51, 52, 53, 54, 55, 56, 57, 48>>),
-                SV(<<49, 69, 45, 49, 48, 48>>), SV(<<49, 101, 43, 49, 48, 48>>), SV(<<48, 46, 48, 48, 48, 48, 48, 49>>)>>
+                SV(<<49, 69, 45, 49, 48, 48>>), SV(<<49, 101, 43, 49, 48, 48>>), SV(<<48, 46, 48, 48, 48, 48, 48, 49>>),
+                \* the scale is part of the value: trailing zeros stay (1.50, 0.00, 100, 2.500)
+                SV(<<49, 46, 53, 48>>), SV(<<48, 46, 48, 48>>), SV(<<49, 48, 48>>), SV(<<50, 46, 53, 48, 48>>)>>
 B9(t) == <<9>> \o t
 NanosMax == <<59, 154, 201, 255>>    \* 999 999 999
 
